@@ -787,6 +787,29 @@ def ast_text(t):
     return s
 
 
+def model_atom_text(tok):
+    """the text Model.SmilesText writes for an atom token (port of atom_chars / body_text)"""
+    ty, d = tok
+    el = d['element'].lower() if ty == 8 else d['element']
+    if set(d) == {'element'}:
+        return el
+    st = d.get('stereo')
+    h = d.get('implicit_hydrogens') or 0
+    q = d.get('charge', 0)
+    return ('[' + ('' if d.get('isotope') is None else str(d['isotope'])) + el + ('' if st is None else '@' if st else '@@') +
+            ('' if h == 0 else 'H' if h == 1 else 'H' + str(h)) + ('' if q == 0 else '+' + str(q) if q > 0 else '-' + str(-q)) +
+            ('' if d.get('parsed_mapping') is None else ':' + str(d['parsed_mapping'])) + ']')
+
+
+def model_text(t):
+    s = model_atom_text(ast_atom(t[0])) + ''.join(bt + ring_digits(k) for (_, bt), k in t[1])
+    kids = t[2]
+    for i, ((_, bt), c) in enumerate(kids):
+        sub = bt + model_text(c)
+        s += sub if i == len(kids) - 1 else '(' + sub + ')'
+    return s
+
+
 def ast_coq(t):
     def cb(b):
         return 'None' if b is None else f'(Some {ctoken(b)})'
@@ -901,15 +924,23 @@ def corr_denote(ck):
     for strong in (True, False):
         bt.add_chunked(f'b_denote {cbool(strong)}', items[strong], ast_coq, chunk=20)
     bt.add_chunked('b_spell', spelled, ast_coq, chunk=20)
+    # the character level: the text Model.SmilesText writes for the tree; the real tokenizer must read the tree's tokens from it
+    texts = []
+    for t in trees:
+        mt = model_text(t)
+        texts.append((t, mt))
+        if guarded(lambda: smiles_tokenize(mt), stokens) != stokens(ast_tokens(t)):
+            ck.unchecked('model text of a tree: smiles_tokenize does not read the tree\'s tokens from it', mt)
+    bt.add_chunked('b_text', texts, ast_coq, chunk=20)
     # the machine-free graph of the tree (SmilesGraph.denote_graph) against atoms and bonds of the real parser's record
     for strong in (True, False):
         bt.add_chunked(f'b_dgraph {cbool(strong)}', [(t, '-' if e.startswith('!') else ';'.join(e.split(';')[:2])) for t, e in items[strong]], ast_coq, chunk=20)
     ck.extra['ast_trees'] = len(trees)
     ck.sample({'ast_text': ast_text(trees[0]), 'denote': items[True][0][1]})
     saved = coqcases_imports[0]
-    coqcases_imports[0] = 'Tokenize Parser Reader SmilesAst SmilesGraph'
+    coqcases_imports[0] = 'Tokenize Parser Reader SmilesAst SmilesGraph SmilesText'
     try:
-        return bt.run(f'parser(spelled tokens) == Coq denote(tree), its atoms and bonds == Coq denote_graph(tree) (machine-free), spelling == Coq spell(tree) on {len(trees)} generated syntax trees, both modes',
+        return bt.run(f'parser(spelled tokens) == Coq denote(tree), its atoms and bonds == Coq denote_graph(tree) (machine-free), spelling == Coq spell(tree), text == Coq spell_text(tree) (and the real tokenizer reads the tokens back from it) on {len(trees)} generated syntax trees, both modes',
                       single=ast_coq)
     finally:
         coqcases_imports[0] = saved
